@@ -236,14 +236,20 @@ FxCall(S, c, m, outs) ==
     THEN [NoFx(S) EXCEPT !.just = {c}]      \* duplicate in-flight serial: the statement is silent
   ELSE
     LET callee == Owner(S, m.svc)
-        fk == IF callee \in DOMAIN S.conns /\ S.conns[callee] >= 19 THEN "CallFunction2" ELSE "CallFunction"
+        \* the form of the forwarded call follows the callee's version (C12); a callee that knows
+        \* CallFunction2 may also be sent the legacy form as long as no version field is lost
+        newCallee == callee \in DOMAIN S.conns /\ S.conns[callee] >= 19
+        legacyFwd == \E i \in 1..Len(outs) : outs[i].m.k = "CallFunction" /\ outs[i].c = callee
+        fk == IF newCallee /\ ~(~m.hv /\ legacyFwd) THEN "CallFunction2" ELSE "CallFunction"
         hv == IF fk = "CallFunction2" THEN m.hv ELSE FALSE
         vv == IF fk = "CallFunction2" THEN m.ver ELSE 0
         F == {i \in 1..Len(outs) : outs[i].m.k \in {"CallFunction", "CallFunction2"} /\ outs[i].c = callee}
         b == IF F = {} THEN -1 ELSE outs[SetMin(F)].m.serial
         inuse == \/ \E key \in DOMAIN S.calls : S.calls[key].callee = callee /\ S.calls[key].b = b
                  \/ <<callee, b>> \in DOMAIN S.zomb
+        wrongForm == \E i \in F : outs[i].m.k # fk
         S1 == IF F = {} THEN S
+              ELSE IF wrongForm THEN Bad(S, "C12", "a call was forwarded in a form that does not match the callee's negotiated version")
               ELSE IF inuse THEN Bad(S, "C02", "forwarded call reuses a serial that is still in flight at the callee")
               ELSE [S EXCEPT !.calls = Put(@, <<c, m.serial>>, [svc |-> m.svc, b |-> b, callee |-> callee])] IN
     [NoFx(S) EXCEPT !.s = S1, !.req = {<<fk, <<callee, m.svc, m.fn, hv, vv, m.val>>>>}]
@@ -603,7 +609,7 @@ LooseErrKinds == {"CloseChannelEndReply", "ClaimChannelEndReply", "DestroyBusLis
 NormE(e) == IF e[1] \in LooseErrKinds /\ e[2][3] \notin {"Ok", "SenderClaimed", "ReceiverClaimed"}
               THEN <<e[1], <<e[2][1], e[2][2], "refused">>>> ELSE e
 
-CheckOuts(S, outs, strict, req0, opt0) ==
+CheckOuts(S, outs, strict, req0, opt0, sender) ==
   LET A == SelectSeq(outs, LAMBDA o : o.m.k \in CheckedKinds /\ o.c \in strict)
       P == [i \in 1..Len(A) |-> NormE(<<A[i].m.k, Proj(A[i])>>)]
       req == {NormE(e) : e \in req0}
@@ -614,12 +620,14 @@ CheckOuts(S, outs, strict, req0, opt0) ==
       missing == {e \in reqS : cnt(e) = 0}
       dupl == {e \in reqS \cup optS : cnt(e) > 1}
       extra == {i \in 1..Len(P) : P[i] \notin reqS /\ P[i] \notin optS}
+      \* who is affected: the sender of the input itself, or another connection (C11 cares about the latter)
+      whom(c) == IF c = sender THEN " (to the sender of the request)" ELSE " (to another connection)"
   IN IF missing # {} THEN LET e == CHOOSE e \in missing : TRUE IN
-                          Bad(S, PropOfKind(e[1]), "missing output " \o e[1])
+                          Bad(S, PropOfKind(e[1]), "missing output " \o e[1] \o whom(e[2][1]))
      ELSE IF dupl # {} THEN LET e == CHOOSE e \in dupl : TRUE IN
-                          Bad(S, PropOfKind(e[1]), "duplicated output " \o e[1])
+                          Bad(S, PropOfKind(e[1]), "duplicated output " \o e[1] \o whom(e[2][1]))
      ELSE IF extra # {} THEN LET i == SetMin(extra) IN
-                          Bad(S, PropOfKind(P[i][1]), "unexpected output " \o P[i][1])
+                          Bad(S, PropOfKind(P[i][1]), "unexpected output " \o P[i][1] \o whom(P[i][2][1]))
      ELSE S
 
 \* version discipline of everything the broker sends (C12)
@@ -668,16 +676,18 @@ DumpCheck(S, st) ==
                   /\ st.stats.chans = Len(st.chans) /\ st.stats.lsts = Len(st.lsts)
       empty == /\ Len(st.objs) = 0 /\ Len(st.objUuids) = 0 /\ Len(st.svcs) = 0 /\ Len(st.svcUuids) = 0
                /\ Len(st.calls) = 0 /\ Len(st.chans) = 0 /\ Len(st.lsts) = 0 /\ Len(st.intro) = 0 /\ Len(st.queryIntro) = 0
-  IN IF ~gaugesOk THEN Bad(S, "C09", "a statistics gauge differs from the number of live entities")
-     ELSE IF dConns # DOMAIN S.conns THEN Bad(S, "C09", "the broker's connection table differs from the connections that are open")
+  \* a table that differs from the history is a violation of the property the table belongs to and of
+  \* C09 ("everything is released, no residual state"): both checks report it ("Cxx+C09")
+  IN IF dConns # DOMAIN S.conns THEN Bad(S, "C09", "the broker's connection table differs from the connections that are open")
+     ELSE IF dObjs # DOMAIN S.objs \/ dObjIdx # dObjs THEN Bad(S, "C03+C09", "the broker's object table differs from the objects that exist")
+     ELSE IF dSvcs # DOMAIN S.svcs \/ dSvcIdx # dSvcs THEN Bad(S, "C03+C09", "the broker's service table differs from the services that exist")
+     ELSE IF dSub # S.sub \/ dAll # S.all \/ dSsub # S.ssub THEN Bad(S, "C04+C09", "the broker's subscription tables differ from the subscriptions made")
+     ELSE IF dCalls # DOMAIN S.calls THEN Bad(S, "C02+C09", "the broker's pending calls differ from the calls in flight")
+     ELSE IF dChans # oChans THEN Bad(S, "C05+C09", "the broker's channel table differs from the channels that are open")
+     ELSE IF dLsts # DOMAIN S.lsts THEN Bad(S, "C10+C09", "the broker's listener table differs from the listeners that exist")
      ELSE IF ~(refConns \subseteq dConns) THEN Bad(S, "C09", "broker state still refers to a connection that is gone")
      ELSE IF Len(st.conns) = 0 /\ ~empty THEN Bad(S, "C09", "residual state although all connections are gone")
-     ELSE IF dObjs # DOMAIN S.objs \/ dObjIdx # dObjs THEN Bad(S, "C03", "the broker's object table differs from the objects that exist")
-     ELSE IF dSvcs # DOMAIN S.svcs \/ dSvcIdx # dSvcs THEN Bad(S, "C03", "the broker's service table differs from the services that exist")
-     ELSE IF dSub # S.sub \/ dAll # S.all \/ dSsub # S.ssub THEN Bad(S, "C04", "the broker's subscription tables differ from the subscriptions made")
-     ELSE IF dCalls # DOMAIN S.calls THEN Bad(S, "C02", "the broker's pending calls differ from the calls in flight")
-     ELSE IF dChans # oChans THEN Bad(S, "C05", "the broker's channel table differs from the channels that are open")
-     ELSE IF dLsts # DOMAIN S.lsts THEN Bad(S, "C10", "the broker's listener table differs from the listeners that exist")
+     ELSE IF ~gaugesOk THEN Bad(S, "C09", "a statistics gauge differs from the number of live entities")
      ELSE S
 
 \* ---------------------------------------------------------------------------------------------
@@ -710,8 +720,11 @@ Judge(S, st) ==
             ELSE IF ~(fx.must \subseteq Rem) THEN
                    Bad(S2, IF inp.t = "msg" THEN "C12" ELSE "C09", "a connection that had to be closed is still registered")
             ELSE S2
-      T2 == IF T1.ok THEN CheckOuts(T1, outsA, strict, req, opt) ELSE T1
-      T3 == IF T2.ok THEN CheckVersions(T2, outs, vers) ELSE T2
+      \* the version discipline first: a message kind the recipient does not know is a C12 matter
+      \* whatever else is wrong with it
+      T2v == IF T1.ok THEN CheckVersions(T1, outs, vers) ELSE T1
+      T2 == IF T2v.ok THEN CheckOuts(T2v, outsA, strict, req, opt, IF inp.t = "msg" THEN inp.c ELSE -1) ELSE T2v
+      T3 == T2
       T4 == IF T3.ok THEN CheckOrder(T3, outs) ELSE T3
       T5 == IF T4.ok /\ inp.t = "sdb"
               THEN (IF /\ \A x \in DOMAIN S.conns \ (S.dead \cup failed) : CountSeq(outs, LAMBDA o : o.m.k = "Shutdown" /\ o.c = x) = 1
